@@ -31,6 +31,10 @@ BROKEN = [
     "S: AOpt A?;\nAOpt: A;\nterminals\nA: 'a';\n", "S: A1 A+;\nA1: A;\nterminals\nA: 'a';\n", "S: A0 A*;\nA0: A;\nterminals\nA: 'a';\n",
     "STOP: A;\nterminals\nA: 'a';\n", "EMPTY: A;\nterminals\nA: 'a';\n", "AUG: A;\nterminals\nA: 'a';\n", "S: AUG;\nterminals\nA: 'a';\n",
     "S: A;\nterminals\nSTOP: 'a';\nA: 'b';\n", "S: A;\nterminals\nEMPTY: 'a';\nA: 'b';\n", "S: fn;\nterminals\nfn: 'a';\n", "S: Self;\nterminals\nSelf: 'a';\n",
+    "S: Type Box;\nType: Ta;\nBox: Tb;\nterminals\nTa: 'a';\nTb: 'b';\n", "S: If;\nterminals\nIf: /if/;\n", "S: Self_ Fn;\nSelf_: Ta;\nFn: Tb;\nterminals\nTa: /a/;\nTb: /b/;\n",
+    "S: A1 B;\nA1: Tb A+;\nA: Ta;\nB: Ta;\nterminals\nTa: 'a';\nTb: 'b';\n", "S: A+ A1;\nA1: Tb;\nA: Ta;\nterminals\nTa: 'a';\nTb: 'b';\n",
+    "S: A STOP*;\nterminals\nA: 'a';\n", "S: A+[STOP];\nterminals\nA: 'a';\n", "S: A {kind: 'x y'};\nterminals\nA: 'a';\n", "S: A {fn};\nterminals\nA: 'a';\n",
+    "S: EMPTY | Tb | S S;\nterminals\nTb: 'b';\n", "S: A S | EMPTY;\nA: EMPTY | Tb;\nterminals\nTb: 'b';\n",
     "S: A;\nterminals\nA: '';\n", "S: A;\nterminals\nA: //;\n", "S: A B;\nterminals\nA: 'a';\nB: 'a';\n",
 ]
 
@@ -98,8 +102,10 @@ def gen(rng, tier):
         for st in (["LR", "-"] + ["-"] * 8, ["GLR", "-"] + ["-"] * 8):
             jobs.append(("corpus:" + name, text, "G", "F", st))
     for text in BROKEN:
-        for st in (["LR", "-"] + ["-"] * 8, ["GLR", "-"] + ["-"] * 8, ["LR", "LALR", "1", "0"] + ["-"] * 6):
-            jobs.append(("broken", text, rng.choice("DG"), rng.choice("FA"), st))
+        for st in (["LR", "-"] + ["-"] * 8, ["GLR", "-"] + ["-"] * 8, ["LR", "LALR", "1", "0"] + ["-"] * 6,
+                   ["LR", "LALR", "0", "0"] + ["-"] * 6):
+            for b in "DG":
+                jobs.append(("broken", text, b, rng.choice("FA"), st))
     for _ in range(n_mut):
         name, text = rng.choice(corp) if corp and rng.random() < 0.6 else ("rand", annotate(rng, random_grammar(rng)).render())
         if len(text) > 3000:
@@ -120,7 +126,8 @@ def known_key(findings, text, ans):
             msg = ""
     for f in findings:
         pat = f.get("panic_pattern")
-        if pat and re.search(pat, msg):
+        tpat = f.get("text_pattern")
+        if pat and re.search(pat, msg) and (tpat is None or re.search(tpat, text)):
             return f["key"]
     return None
 
@@ -133,10 +140,19 @@ def run(rep, tier, seed):
         rep.oblige("cargo build harness/dyn against /repo", False, log[-1500:])
         rep.violation({"broken": "harness build", "log": log[-3000:]}, no_input=True)
         return
+    # Tie C: the panic-capable sites of the compiler crate are the ones the models and findings were written against
+    import inventory16
+    try:
+        inv_diff = inventory16.diff(json.load(open(inventory16.COMMITTED))["sites"], inventory16.extract())
+    except Exception as e:
+        inv_diff = [f"inventory could not be computed: {e}"]
+    rep.oblige("inventory:c16 panic-capable sites of rustemo-compiler/src = inventory/c16.json", not inv_diff, "; ".join(inv_diff)[:1500])
+    rep.inv_diff = inv_diff
     jobs = gen(rng, tier)
     findings = [f for f in load_findings() if f["property"] == "C16"]
     # known findings' witnesses first
-    wit = [("finding:" + f["key"], f["witness"]["grammar"], "G", "F", f["witness"]["settings"].split(" ")) for f in findings if "witness" in f]
+    wit = [("finding:" + f["key"], f["witness"]["grammar"], f["witness"].get("builder", "G"), "F",
+            f["witness"].get("settings", "LR - - - - - - - - -").split(" ")) for f in findings if "witness" in f]
     check(rep, wit + jobs, findings, proofs_ok)
 
 
@@ -201,6 +217,11 @@ def check(rep, jobs, findings, proofs_ok):
     if not bad and not proofs_ok:
         rep.violation({"why": f"Lean obligations of {PROP_MODULE} no longer check",
                        "obligations": [o for o in rep.obligations if not o[1]]}, no_input=True)
+    elif not bad and getattr(rep, "inv_diff", None):
+        rep.violation({"broken": "inventory:c16", "differences": rep.inv_diff,
+                       "why": "the set of panic-capable sites (unwrap/expect/panic!/unreachable!/todo!/assert!) of the compiler crate "
+                              "differs from the one the totality models and findings were written against; the differential run "
+                              "found no panicking text"}, no_input=True)
     rep.counters["oracle_failures"] = len(bad)
 
 
